@@ -24,7 +24,7 @@ META = {
                    'with the reference operator applied to those same atoms; band-major channel layout and the documented output shape are checked concretely; non-negativity: '
                    'r >= 0, r^2 = s + b^2, s >= -1e-10 => r - b >= -1e-6 (small QF_NRA query per configuration; exact non-negativity follows from q being a sum of squares + b^2).',
     'bounds': {'quick': {'first order': {'biort': BIORTS, 'magbias': [0, 0.01, 1], 'colour': 'on (C=3) / off (C=1,2)', 'sizes': '(4,4),(6,6),(4,6),(5,5),(3,4),(2,2),(7,6)'},
-                         'second order': {'filters': '(near_sym_a,qshift_a), (near_sym_b_bp,qshift_b_bp)', 'sizes': '8x8 (+ 6x7 -> extended)', 'colour': 'off'}},
+                         'second order': {'filters': '(near_sym_a,qshift_a|06|c), (near_sym_b_bp,qshift_b_bp)', 'sizes': '8x8 (+ 6x7 -> extended)', 'colour': 'off'}},
                'thorough': {'first order': 'sizes up to 10x10, all 5 families x 3 biases', 'second order': '3 filter pairs, 8x8, 8x16, 5x9'}},
     'outside': 'second-order colour combination (engine-validated only); sizes beyond the lists; symbolic magbias; float rounding',
     'assumptions': ['real-arithmetic semantics', 'the second-order band order (o2*6+o1) is taken from the layer\'s documentation/code as the definition',
@@ -49,6 +49,8 @@ def configs(tier, seed):
     for (b, q) in j2:
         out.append(dict(layer='j2', biort=b, qshift=q, magbias=0.01, colour=False, H=8, W=8, C=1))
         out.append(dict(layer='j2', biort=b, qshift=q, magbias=0.0, colour=False, H=8, W=8, C=1))
+    for q in (['qshift_06', 'qshift_c'] if tier == 'quick' else ['qshift_06', 'qshift_b', 'qshift_c', 'qshift_d']):
+        out.append(dict(layer='j2', biort='near_sym_a', qshift=q, magbias=0.01, colour=False, H=8, W=8, C=1))
     out.append(dict(layer='j2', biort='near_sym_a', qshift='qshift_a', magbias=0.01, colour=False, H=6, W=7, C=1))
     out.append(dict(layer='j2', biort='near_sym_a', qshift='qshift_a', magbias=0.01, colour=False, H=2, W=8, C=1))
     out.append(dict(layer='j2', biort='near_sym_a', qshift='qshift_a', magbias=0.01, colour=True, H=8, W=8, C=3, validate_only=True))
